@@ -33,6 +33,7 @@ import (
 	"github.com/dadrus/heimdall/internal/heimdall"
 	"github.com/dadrus/heimdall/internal/rules/mechanisms/contenttype"
 	"github.com/dadrus/heimdall/internal/x"
+	"github.com/dadrus/heimdall/internal/x/stringx"
 )
 
 type RequestContext struct {
@@ -137,6 +138,11 @@ func (r *RequestContext) Cookie(name string) string {
 
 func (r *RequestContext) Body() any {
 	if r.savedBody == nil {
+		// envoy sends the body either as string (body), or as bytes (raw_body, if pack_as_bytes is set)
+		if len(r.reqRawBody) == 0 && len(r.reqBody) != 0 {
+			r.reqRawBody = stringx.ToBytes(r.reqBody)
+		}
+
 		decoder, err := contenttype.NewDecoder(r.Header("Content-Type"))
 		if err != nil {
 			r.savedBody = string(r.reqRawBody)
